@@ -100,7 +100,19 @@ def h1(
     if isinstance(data, tuple) and isinstance(
         data[0], str
     ):  # Works for groupby DataSeries
-        return h1(data[1], bins, name=data[0], **kwargs)
+        return h1(
+            data[1],
+            bins,
+            weights=weights,
+            dropna=dropna,
+            dtype=dtype,
+            keep_missed=keep_missed,
+            name=data[0] if name is None else name,
+            title=title,
+            axis_name=axis_name,
+            adaptive=adaptive,
+            **kwargs,
+        )
     if type(data).__name__ == "DataFrame":
         raise TypeError(
             "Cannot create a 1D histogram from a pandas DataFrame. Use Series."
